@@ -8,12 +8,12 @@
    stacks, which have the TOP piece first as in model/Tak.v.
 
    Result of the parser: Accept p | Reject (= IllegalTPS) | Unspecified.
-   Unspecified is produced in exactly one situation: a move-number field that
-   passes isascii()/isdigit() but has more than 4300 characters, on which
-   CPython's int() raises ValueError (sys.int_max_str_digits); the property
-   takes no position on such numbers.  (The ValueError "Wrong board size" of
-   Position.from_squares is mapped to Unspecified too; proofs/TpsProofs.v shows
-   it cannot occur.) *)
+   A move-number field that passes isascii()/isdigit() but has more than 4300
+   characters makes CPython's int() raise ValueError (sys.int_max_str_digits);
+   the code catches it and raises IllegalTPS, so the model answers Reject.
+   Unspecified is kept for the ValueError "Wrong board size" of
+   Position.from_squares only; proofs/TpsProofs.v (never_unspecified) shows it
+   cannot occur, so the parser never answers Unspecified. *)
 From Coq Require Import ZArith List Bool.
 From TV Require Import model.Tak.
 Import ListNotations.
@@ -157,7 +157,7 @@ Definition parse_tps (tps : str) : tps_result :=
   | [board; who; move] =>
     if negb (str_eqb who [ch_1] || str_eqb who [ch_2]) then Reject else
     if negb (is_ascii_digits move) then Reject else
-    if max_str_digits <? zlen move then Unspecified else   (* int(move) raises ValueError *)
+    if max_str_digits <? zlen move then Reject else        (* int(move) raises ValueError -> IllegalTPS *)
     let mvn := int_of_digits move in
     if mvn <? 1 then Reject else
     let pl := 2 * (mvn - 1) + int_of_digits who - 1 in
